@@ -95,4 +95,28 @@ def obligations(tier, seed):
             obs.append(Ob(id='C14.muldiv.%s' % rep, prop='C14', group='C14.%s' % rep, prelude=PRE, wrappers=[w_mul, w_sq, w_cu, w_div, w_raw], inputs=[(ct, 'a'), (ct, 'b')], body=body,
                           budget=300, contract='forall a,b:%s with the raw expression defined: product, int_pow<2>, int_pow<3>, quotient (unblock_int_div) and same-unit quotient equal the raw operator; no UB:*' % ct,
                           functions_under_contract=('au::Quantity::operator*(Quantity)', 'au::Quantity::operator/(Quantity)', 'au::int_pow', 'au::unblock_int_div')))
+    # ---- raw number / unblock_int_div(quantity) with a numerator type NARROWER than the divisor's rep: the raw operator works in the common type
+    inv = 'au::UnitInverseT<au::Seconds>'
+    w1 = Wrapper('w_rawdiv_i32_i64', 'int64_t', [('int32_t', 'x'), ('int64_t', 'q')], 'return (x / au::unblock_int_div(au::make_quantity<au::Seconds>(q))).in(%s{});' % inv)
+    w2 = Wrapper('w_rawdiv_u8_i32', 'int32_t', [('uint8_t', 'x'), ('int32_t', 'q')], 'return (x / au::unblock_int_div(au::make_quantity<au::Seconds>(q))).in(%s{});' % inv)
+    body = '''
+  if (q != 0) CHECK(w_rawdiv_i32_i64(x, q) == (int64_t)x / q, "int32-over-int64-quantity-divides-in-int64");
+'''
+    obs.append(Ob(id='C14.rawdiv-mixed.i32_i64', prop='C14', group='C14.rawdiv', prelude=PRE, wrappers=[w1], inputs=[('int32_t', 'x'), ('int64_t', 'q')], body=body,
+                  contract='forall x:int32, q:int64 != 0: (x / unblock_int_div(seconds(q))).in(1/s) == (int64)x / q  (raw operator in the common type; unblock_int_div is a no-op on the value)',
+                  functions_under_contract=('au::operator/(T, AlwaysDivisibleQuantity)', 'au::unblock_int_div')))
+    body = '''
+  if (q != 0) CHECK(w_rawdiv_u8_i32(x, q) == (int32_t)x / q, "uint8-over-int32-quantity-divides-in-int");
+'''
+    obs.append(Ob(id='C14.rawdiv-mixed.u8_i32', prop='C14', group='C14.rawdiv', prelude=PRE, wrappers=[w2], inputs=[('uint8_t', 'x'), ('int32_t', 'q')], body=body,
+                  contract='forall x:uint8, q:int32 != 0: (x / unblock_int_div(seconds(q))).in(1/s) == (int)x / q', functions_under_contract=('au::operator/(T, AlwaysDivisibleQuantity)',)))
+    w3 = Wrapper('w_rawdiv_int_f64', 'double', [('int32_t', 'x'), ('double', 'q')], 'return (x / au::unblock_int_div(au::make_quantity<au::Seconds>(q))).in(%s{});' % inv)
+    body = '''
+  ASSUME(x >= 0 && x <= 127 && m >= 1 && m <= 64);
+  double q = (double)m + 0.5;
+  CHECK(vf_f64_bits(w_rawdiv_int_f64(x, q)) == vf_f64_bits((double)x / q), "int-over-double-quantity-divides-in-double");
+'''
+    obs.append(Ob(id='C14.rawdiv-mixed.family.int_f64', prop='C14', group='C14.rawdiv', prelude=PRE, wrappers=[w3], inputs=[('int32_t', 'x'), ('uint8_t', 'm')], body=body, fp=True,
+                  bounded=True, contract='restricted family x in [0,127], q = m + 0.5 for m in [1,64]: (x / unblock_int_div(seconds(q))).in(1/s) == (double)x / q bit for bit',
+                  functions_under_contract=('au::operator/(T, AlwaysDivisibleQuantity)',)))
     return obs
